@@ -1,6 +1,6 @@
 SPECIFICATION Spec
 CONSTANTS
-  Deltas = {-2, -1, 1, 2, 7}
+  Deltas = {-9, -4, -3, -2, -1, 1, 2, 3, 4, 7, 16, 255}
   Pairwise = FALSE
   MaxLabel = 63
   MaxName = 255
